@@ -1,5 +1,6 @@
 import UF.Compose2.Pat
 import UF.Spec.Match
+import UF.Proofs.ShortcutBytes
 /-
   Integration (group I2), part 2: `NetworkRule.Match` with the pattern oracle instantiated, and the
   reference of C04 with the pattern conjunct spelled out as the documented mask language.
@@ -67,5 +68,14 @@ theorem specMatch_withModelPat (ext : Ext) (r : NetRule) (q : Request)
   unfold specMatch specMatchFull specPattern specPatternMask
   rw [specDenyallow_withModelPat, specSourceDomain_withModelPat, withModelPat_pat,
     modelPatD_mask _ hd]
+
+/-- Dropping the shortcut from the rule drops the shortcut conjunct from the reference. -/
+theorem specMatchFull_noShortcut (ext : Ext) (r : NetRule) (q : Request) :
+    specMatchFull ext ({ r with shortcut := [] } : NetRule) q = specMatchNoShortcut ext r q := by
+  show (hasSub q.urlLower [] && specThirdParty r q && specReqType r q.reqType && specDenyallow ext r q &&
+    specSourceDomain ext r q && specDnsType r q && specCTag r q && specClient r q && specPatternMask r q) =
+    specMatchNoShortcut ext r q
+  rw [hasSub_nil, Bool.true_and]
+  rfl
 
 end UF.I2
